@@ -1,78 +1,101 @@
+#![allow(dead_code)]
+mod check;
 mod data;
+mod families;
 mod host;
+mod mon_local;
 mod netmc;
+mod props;
 mod script;
 
-use script::*;
+use check::Tier;
 
-struct NoMon;
-impl netmc::Monitor for NoMon {}
-
-fn demo_scripts() -> Vec<Script> {
-    let p3 = vec!["A".to_string(), "B".to_string(), "C".to_string()];
-    vec![
-        Script {
-            family: "demo",
-            name: "seq3".into(),
-            ast: seqs(vec![
-                call("A", "f1", vec![], sc("x")),
-                call("B", "f2", vec![var("x")], sc("y")),
-                call("C", "f3", vec![var("y")], sc("z")),
-            ]),
-            peers: p3.clone(),
-        },
-        Script {
-            family: "demo",
-            name: "dataflow4".into(),
-            ast: seqs(vec![
-                call("A", "f1", vec![], sc("x")),
-                par(call("B", "f2", vec![var("x")], sc("y")), call("C", "f3", vec![var("x")], sc("z"))),
-                call("A", "f4", vec![var("y"), var("z")], sc("w")),
-            ]),
-            peers: p3.clone(),
-        },
-        Script {
-            family: "demo",
-            name: "writers3_canon".into(),
-            ast: seqs(vec![
-                pars(vec![
-                    call("A", "f1", vec![], st("$s")),
-                    call("B", "f2", vec![], st("$s")),
-                    call("C", "f3", vec![], st("$s")),
-                ]),
-                canon("A", "$s", "#c"),
-                call("B", "obs", vec![Arg::Canon("#c".into())], sc("o")),
-            ]),
-            peers: p3.clone(),
-        },
-        Script {
-            family: "demo",
-            name: "writers3_fold".into(),
-            ast: seqs(vec![
-                pars(vec![
-                    call("A", "f1", vec![], st("$s")),
-                    call("B", "f2", vec![], st("$s")),
-                    call("C", "f3", vec![], st("$s")),
-                ]),
-                fold(Arg::Stream("$s".into()), "i", par(call("A", "visit", vec![var("i")], Out::None), I::Next("i".into()))),
-            ]),
-            peers: p3.clone(),
-        },
-    ]
+fn usage() -> ! {
+    host::elog(&format!("usage: mc check <ID> quick|thorough | mc families | mc replay <file>"));
+    std::process::exit(2)
 }
 
 fn main() {
     host::install_panic_hook();
+    host::silence_stderr();
     let args: Vec<String> = std::env::args().collect();
-    if args.len() > 1 && args[1] == "demo" {
-        for s in demo_scripts() {
-            for dup in [false, true] {
-                let w = netmc::World::new(&s, &["O"], "particle-1");
-                println!("{} :: {}", s.name, w.part.script);
-                let cfg = netmc::Cfg { dup, ..Default::default() };
-                let ex = netmc::explore(w, &cfg, &mut NoMon);
-                println!("  dup={dup} {:?}", ex.stats);
+    if args.len() < 2 {
+        usage();
+    }
+    match args[1].as_str() {
+        "check" => {
+            if args.len() < 4 {
+                usage();
+            }
+            let tier = if args[3] == "thorough" { Tier::Thorough } else { Tier::Quick };
+            let t0 = std::time::Instant::now();
+            match props::check(&args[2], tier) {
+                Ok(rep) => std::process::exit(check::finish(rep, tier, t0)),
+                Err(e) => {
+                    host::elog(&format!("MACHINERY-ERROR property={} {e}", args[2]));
+                    std::process::exit(2)
+                }
             }
         }
+        "replay" => {
+            if args.len() < 3 {
+                usage();
+            }
+            std::process::exit(replay_file(&args[2]));
+        }
+        "families" => {
+            for (n, v) in [("STREAM quick", families::stream_family(0)), ("STREAM thorough", families::stream_family(1)), ("MAP quick", families::map_family(0)), ("MAP thorough", families::map_family(1))] {
+                println!("{n}: {} scripts", v.len());
+            }
+        }
+        _ => usage(),
+    }
+}
+
+/// Re-executes a recorded violation on fresh interpreters, without the explorer, twice; prints the verdict.
+fn replay_file(path: &str) -> i32 {
+    let text = match std::fs::read_to_string(path) {
+        Ok(t) => t,
+        Err(e) => {
+            host::elog(&format!("cannot read {path}: {e}"));
+            return 2;
+        }
+    };
+    let v: serde_json::Value = serde_json::from_str(&text).expect("replay file is JSON");
+    let engine = v["engine"].as_str().unwrap_or("");
+    if engine != "netmc" {
+        return props::replay_other(&v);
+    }
+    let script: script::Script = serde_json::from_value(v["script"].clone()).expect("script");
+    let id = v["monitor"].as_str().unwrap_or("").to_string();
+    let path_steps = v["path"].as_array().cloned().unwrap_or_default();
+    let want = v["signature"].as_str().unwrap_or("").to_string();
+    let mut verdicts = vec![];
+    for _ in 0..2 {
+        let world = netmc::World::new(&script, &["O"], "particle-1");
+        let mut mon = props::monitor_for(&id, &script).expect("monitor");
+        match netmc::replay(world, &path_steps, mon.as_mut()) {
+            Ok((viols, desc)) => {
+                let tags: Vec<String> = viols.iter().map(|x| x.tag.clone()).collect();
+                verdicts.push((tags, serde_json::to_string(&desc).unwrap()));
+            }
+            Err(e) => {
+                println!("REPLAY-DIVERGED {e}");
+                return 2;
+            }
+        }
+    }
+    if verdicts[0] != verdicts[1] {
+        println!("REPLAY-NONDETERMINISTIC");
+        return 2;
+    }
+    println!("replayed path: {}", verdicts[0].1);
+    if verdicts[0].0.iter().any(|t| *t == want) {
+        println!("VIOLATION property={} replay={path}", v["property"].as_str().unwrap_or(""));
+        println!("reproduced: {want}");
+        1
+    } else {
+        println!("not reproduced (violations seen: {:?})", verdicts[0].0);
+        0
     }
 }
